@@ -7,6 +7,7 @@ package PVM
 
 import (
 	"bufio"
+	"bytes"
 	"encoding/binary"
 	"encoding/json"
 	"fmt"
@@ -128,7 +129,8 @@ func vfbStd(c map[string]any, rec map[string]any) {
 
 	// the same steps by hand, to observe the heap growth (Psi_M does not return the memory)
 	heapK := 0
-	if ini["ok"] == true && ini["panic"] == "" && psi["panic"] == "" {
+	// (only a program that contains the sbrk opcode byte can grow the heap)
+	if ini["ok"] == true && ini["panic"] == "" && psi["panic"] == "" && bytes.IndexByte(code, 101) >= 0 {
 		hp0 := mem.heapPointer
 		_ = vfbGuard(func() {
 			prog, r := DeBlobProgramCode(ProgramCode(code))
